@@ -211,6 +211,23 @@ Theorem C08_prune7_owned_deleted : forall ex cs g r g' tr,
 Proof. exact prune7_owned. Qed.
 Print Assumptions C08_prune7_owned_deleted.
 
+(* ================= prune as extended by proposed_fixes/C08-8 (operation OPrune8) ======================
+   The collection phase also visits the sub-interfaces of the service ports; a sub-interface in the pruned state is
+   disconnected and removed WITHOUT the port above it (the port is not owned by its sub-interface).  Selected by the
+   harness when the running library's _prune_interface mentions delete_parent. *)
+Theorem C08_prune8_targets_deleted : forall ex cs g r g' tr,
+  ids_distinct g -> run (exec ex OPrune8 cs) g = (inl r, (g', tr)) ->
+  forall x, prune_target8 g x -> In x tr.
+Proof. exact prune8_targets. Qed.
+Print Assumptions C08_prune8_targets_deleted.
+
+(* ... and nothing but what removing each marked element may delete: for a marked SubInterface i that is U_cp g i false
+   (itself and the links attached to it - not the port above it) plus what disconnecting it deletes *)
+Theorem C08_prune8_nothing_else : forall ex cs g r g' tr,
+  run (exec ex OPrune8 cs) g = (r, (g', tr)) -> forall x, In x tr -> A_prune8 g x.
+Proof. exact (fun ex cs g r g' tr E x Hx => sound_exec ex OPrune8 cs g r g' tr E x Hx). Qed.
+Print Assumptions C08_prune8_nothing_else.
+
 (* ================= handles: "report the same interfaces as a freshly looked-up handle" ================ *)
 
 (* disconnect_interface through a service handle whose list was fresh; the hypothesis on the peer says
@@ -394,3 +411,11 @@ Proof. split; [exact WP_G12|]. split; [exact WP_G1|]. split; [exact link2_G12|].
 
 Example C08_nonvacuous_equation : WQ G1 /\ WQ G12 /\ WQ G10.
 Proof. split; [exact WQ_G1|]. split; [exact WQ_G12 | exact WQ_G10]. Qed.
+
+(* an only-child sub-interface in the pruned state (G13): pruned alone, the port above it stays *)
+Example C08_nonvacuous_prune8 :
+  trace_of (run (exec true OPrune7 []) G13) = [] /\
+  ok_of (run (exec true OPrune8 []) G13) = true /\
+  trace_of (run (exec true OPrune8 []) G13) = [3%N] /\
+  with_children G13 2 = [2; 3]%N /\ marked G13 3 = true.
+Proof. exact ex_prune_only_child. Qed.
